@@ -14,12 +14,13 @@ ID = "C16"
 LEVEL = "exploration"
 RULE = ("workload 1 (stress): rounds of 4-8 threads x 40-60 requests over one base connection and connections "
         "derived from it (BAuthConn, path-prefix HttpConn, a connection derived from a derived one), every 10th "
-        "request carrying its own X-Request-ID; switch interval 1 microsecond and sys.monitoring LINE events "
+        "request carrying its own X-Request-ID, three in ten re-using a headers dict the caller keeps; switch interval 1 microsecond and sys.monitoring LINE events "
         "local to _generate_request_id and do_request yielding the GIL (sleep(0)) with probability 1/2. "
         "Workload 2 (bounded schedule enumeration, pre-emption bound 1): for EVERY bytecode offset of "
         "_generate_request_id thread A is held at that offset by an INSTRUCTION-event callback until thread B's "
         "request (through the same or a derived connection) completed or 50 ms passed (B blocked on the lock); "
-        "the wait only steers the schedule, it is never a verdict. A fake opener records every urllib Request "
+        "the wait only steers the schedule, it is never a verdict. Workload 3: 10 400 (thorough 101 000) sequential requests over the "
+        "base and derived connections (more than a four-digit field can count). A fake opener records every urllib Request "
         "under its own lock. Oracle (sequential counter model): generated ids pairwise distinct, their sequence "
         "numbers exactly 0..N-1, caller-supplied ids sent unchanged exactly once and not counted. Non-trivial = "
         "round whose order of threads by sequence number differs from all earlier rounds, or offset scenario in "
@@ -168,12 +169,15 @@ def stress_round(ctx, seed, interleavings, case_no):
 
     def worker(i):
         c = conns[i % len(conns)]
+        reused = {'X-Worker': str(i)}     # a headers dict the caller keeps and passes again
         try:
             start.wait()
             for k in range(n_req):
                 verb = (c.get, c.post, c.put)[k % 3]
                 if k % 10 == 3:
                     verb("/p", headers={'X-Request-ID': f"own-{i}-{k}"})
+                elif k % 10 in (5, 6, 8):
+                    verb("/p", headers=reused)
                 else:
                     verb("/p")
         except Exception as err:  # pragma: no cover
@@ -214,6 +218,26 @@ def stress_round(ctx, seed, interleavings, case_no):
                         "first_ids_by_arrival": [request_id_of(r) for _, r in op.reqs[:6]],
                         "thread_order_by_sequence_number(first 30)":
                             [tid_index[t] for t in order[:30]]})
+
+
+def long_run(ctx, n_requests):
+    """more requests on one underlying connection than any fixed-width field of the id can count"""
+    op, conns = mk_conns()
+    own = []
+    try:
+        for k in range(n_requests):
+            c = conns[k % len(conns)]
+            if k % 1000 == 7:
+                own.append(f"own-long-{k}")
+                c.get("/l", headers={'X-Request-ID': own[-1]})
+            else:
+                c.get("/l")
+    except Exception as err:
+        ctx.violation("request-raises-under-concurrency", {"errors": [repr(err)]},
+                      {"workload": "long", "requests": n_requests})
+        return
+    ctx.count("long_run_requests", n_requests)
+    judge_history(ctx, op.reqs, None, own, {"workload": "long", "requests": n_requests})
 
 
 def offset_scenario(ctx, off, variant):
@@ -293,6 +317,9 @@ def run_shard(ctx):
     for i in range(ctx.cases):
         ctx.evaluated()
         stress_round(ctx, hash((ctx.seed, ctx.shard, i)) & 0xffffffff, interleavings, i)
+    if ctx.shard == 0:
+        ctx.evaluated()
+        long_run(ctx, 10400 if ctx.tier == "quick" else 101000)
     variants = ["same-connection", "derived", "derived-of-derived"]
     for sweep in range(int(ctx.params.get("sweeps", 1))):
         variant = variants[(ctx.shard + sweep) % len(variants)]
@@ -305,7 +332,9 @@ def run_shard(ctx):
 
 def replay(ctx, case):
     ctx.evaluated()
-    if case["workload"] == "stress":
+    if case["workload"] == "long":
+        long_run(ctx, case["requests"])
+    elif case["workload"] == "stress":
         for k in range(5):
             stress_round(ctx, case["seed"] + k * 7919, set(), 1)
     else:
